@@ -50,6 +50,44 @@ def run_one(mu, slot, base="/tmp"):
         shutil.rmtree(work, ignore_errors=True)
 
 
+def load_benign():
+    p = os.path.join(VERIF, "selftest", "benign.py")
+    sp = importlib.util.spec_from_file_location("benign", p)
+    m = importlib.util.module_from_spec(sp)
+    sp.loader.exec_module(m)
+    return m.B
+
+
+ALL = ["C%02d" % i for i in range(1, 19)]
+
+
+def run_benign(bn, slot, base="/tmp"):
+    work = tempfile.mkdtemp(prefix="vsb_%s_" % bn["id"], dir=base)
+    repo = os.path.join(work, "repo")
+    try:
+        subprocess.run(["rsync", "-a", "--exclude", "target", "--exclude", ".git", "--exclude", "/fuzz", "--exclude", "/js-api", "--exclude", "/media", REPO + "/", repo + "/"], check=True)
+        for f, a, b in bn["edits"]:
+            fp = os.path.join(repo, f)
+            s = open(fp).read()
+            if a not in s:
+                return bn["id"], {"status": "stale", "detail": "pattern not found in " + f}
+            open(fp, "w").write(s.replace(a, b, 1))
+        env = dict(os.environ)
+        env["VERIF_REPO"] = repo
+        env["VERIF_CACHE"] = os.path.join(base, "vstcache_%d" % slot)
+        env["VERIF_EVIDENCE_DIR"] = os.path.join(work, "evidence")
+        env.pop("VERIF_TIER", None)
+        alarms = {}
+        for pid in (bn.get("props") or ALL):
+            q = subprocess.run([os.path.join(VERIF, "check"), pid, "--tier", "quick"], env=env, stdout=subprocess.PIPE, stderr=subprocess.PIPE, cwd=VERIF)
+            if q.returncode != 0:
+                out = q.stdout.decode(errors="replace")
+                alarms[pid] = sorted(set(re.findall(r"^violation: rule=(\S+)", out, re.M))) or ["exit %d: %s" % (q.returncode, q.stderr.decode(errors="replace")[-200:])]
+        return bn["id"], {"status": "FALSE-ALARM" if alarms else "silent", "alarms": alarms}
+    finally:
+        shutil.rmtree(work, ignore_errors=True)
+
+
 def run(props=None, jobs=4, ids=None):
     M = [m for m in load_mutations() if (props is None or m["prop"] in props) and (ids is None or m["id"] in ids)]
     q = queue.Queue()
@@ -63,22 +101,34 @@ def run(props=None, jobs=4, ids=None):
             return run_one(mu, slot)
         finally:
             q.put(slot)
+    Bn = [b for b in load_benign() if (ids is None or b["id"] in ids) and (props is None or (b.get("props") is None) or set(props) & set(b["props"]))]
+
+    def workb(bn):
+        slot = q.get()
+        try:
+            return run_benign(bn, slot)
+        finally:
+            q.put(slot)
     with ThreadPoolExecutor(max_workers=jobs) as ex:
         for mid, res in ex.map(work, M):
             results[mid] = res
+        for bid, res in ex.map(workb, Bn):
+            results[bid] = res
+    M = M + [dict(id=b["id"], prop="-", rule="(benign)") for b in Bn]
     for s in range(jobs):
         shutil.rmtree("/tmp/vstcache_%d" % s, ignore_errors=True)
     return M, results
 
 
 def main(prop, seed):
-    props = [prop] if prop else None
-    M, results = run(props, jobs=int(os.environ.get("VERIF_JOBS", "4")))
+    props = [prop] if prop and prop.startswith("C") else None
+    ids = prop.split(",") if prop and not prop.startswith("C") else None
+    M, results = run(props, jobs=int(os.environ.get("VERIF_JOBS", "4")), ids=ids)
     bad = 0
     for m in M:
         r = results[m["id"]]
-        print("%-6s %-4s %-7s %-13s %s" % (m["id"], m["prop"], m["rule"], r["status"], r.get("rules") or r.get("detail", "")))
-        if r["status"] != "detected":
+        print("%-6s %-4s %-7s %-13s %s" % (m["id"], m["prop"], m["rule"], r["status"], r.get("rules") or r.get("alarms") or r.get("detail", "")))
+        if r["status"] not in ("detected", "silent"):
             bad += 1
     print("selftest: %d mutations, %d detected by the intended rule" % (len(M), len(M) - bad))
     return 0 if bad == 0 else 2
